@@ -3,6 +3,42 @@
 //!   yvx-conform gen <PROP> --out <dir> [--shards N] [--tier quick|thorough] [--seed S]
 //!   yvx-conform replay <cases.ndjson> --out <file>
 //!   yvx-conform buildinfo
+/// HOST dimension (cargo feature `misalign`): the allocator contract only promises the alignment that was asked for.  With
+/// this allocator every allocation whose alignment requirement is <= 4 bytes (`Vec<[f32; 3]>`, `Vec<f32>` ...) starts at an
+/// address that is 4 mod 16, as it may on 32-bit targets, wasm32 or under a bump allocator.  What a conversion returns
+/// must not depend on it.
+#[cfg(feature = "misalign")]
+mod misalign {
+    use std::alloc::{GlobalAlloc, Layout, System};
+    pub struct Misalign;
+    // SAFETY: every block is obtained from / returned to `System` with one and the same enlarged 16-aligned layout; the
+    // pointer handed out is inside that block, satisfies the (<= 4 byte) alignment asked for and has `size` bytes after it
+    unsafe impl GlobalAlloc for Misalign {
+        unsafe fn alloc(&self, l: Layout) -> *mut u8 {
+            if l.align() <= 4 && l.size() > 0 {
+                let p = System.alloc(Layout::from_size_align_unchecked(l.size() + 16, 16));
+                if p.is_null() {
+                    p
+                } else {
+                    p.add(4)
+                }
+            } else {
+                System.alloc(l)
+            }
+        }
+        unsafe fn dealloc(&self, p: *mut u8, l: Layout) {
+            if l.align() <= 4 && l.size() > 0 {
+                System.dealloc(p.sub(4), Layout::from_size_align_unchecked(l.size() + 16, 16));
+            } else {
+                System.dealloc(p, l);
+            }
+        }
+    }
+}
+#[cfg(feature = "misalign")]
+#[global_allocator]
+static GLOBAL: misalign::Misalign = misalign::Misalign;
+
 mod frames;
 mod gen_c09;
 mod gen_color;
@@ -36,7 +72,13 @@ fn build_tag() -> String {
         "{}-{}-{}",
         if cfg!(feature = "fast") { "fast" } else { "exact" },
         if cfg!(target_feature = "fma") { "fma" } else { "nofma" },
-        if cfg!(debug_assertions) { "checked" } else { "release" }
+        if cfg!(feature = "misalign") {
+            "misalign"
+        } else if cfg!(debug_assertions) {
+            "checked"
+        } else {
+            "release"
+        }
     )
 }
 
